@@ -89,6 +89,7 @@ class World:
         self.faults_fired = {}
         self.probes = {}         # coverage probes
         self.tripwires = []
+        self.net_time_us = 0     # virtual time spent by data in flight (latency, gaps, injected delays)
         self.executors = []
         self.exec_future_counter = 0
         self.exec_done_counter = 0
@@ -184,6 +185,7 @@ class World:
             pipe.last_arrival = t
             pipe.inflight.append(bytes(seg))
             k.at(t, self._arrive, pipe)
+        self.net_time_us += t - k.now
 
     def _arrive(self, pipe):
         # strict FIFO per pipe, whatever the tie-break among same-instant events
